@@ -12,3 +12,6 @@ pub mod c06;
 pub mod c19;
 pub mod c13;
 pub mod c14;
+pub mod c07;
+pub mod c08;
+pub mod readers;
